@@ -13,6 +13,12 @@ fn recs(n: usize) -> Array2<f64> {
     Array2::from_shape_fn((n, 1), |(i, _)| i as f64)
 }
 
+/// non-uniform sample weights (zero included): the metrics of the statement are unweighted, so a
+/// dataset that carries weights must give the value of the same dataset without them
+pub fn wts(n: usize) -> Array1<f32> {
+    Array1::from((0..n).map(|i| [0.5f32, 2.0, 0.0, 3.5][i % 4]).collect::<Vec<f32>>())
+}
+
 /// memory layouts: an array of twice the length whose even positions carry `v` (the odd ones carry
 /// other elements of `v`), to be viewed with stride 2 ...
 pub fn interleaved<T: Clone>(v: &[T]) -> Array1<T> {
@@ -27,6 +33,11 @@ pub fn reversed<T: Clone>(v: &[T]) -> Array1<T> {
 pub fn two_cols<T: Clone>(v: &[T]) -> Array2<T> {
     let n = v.len();
     Array2::from_shape_fn((n, 2), |(i, j)| if j == 0 { v[i].clone() } else { v[(i + 1) % n].clone() })
+}
+/// a matrix with rows and columns in reverse order, to be viewed with strides (-p, -1)
+pub fn rev2<F: Clone>(a: &Array2<F>) -> Array2<F> {
+    let (n, p) = a.dim();
+    Array2::from_shape_fn((n, p), |(i, j)| a[(n - 1 - i, p - 1 - j)].clone())
 }
 /// a matrix in column-major (Fortran) order
 pub fn f_order<F: Clone>(a: &Array2<F>) -> Array2<F> {
@@ -73,7 +84,7 @@ impl CmLabel for &'static str {
 impl CmLabel for String {}
 
 
-pub const CM_FORMS: usize = 21;
+pub const CM_FORMS: usize = 26;
 pub const CM_FORM_NAMES: [&str; CM_FORMS] = [
     "arr.cm(&arr)",
     "arr.cm(arr)",
@@ -96,6 +107,11 @@ pub const CM_FORM_NAMES: [&str; CM_FORMS] = [
     "arr.cm(&reversed)",
     "colds.cm(&arr)",
     "arr.cm(&colds)",
+    "wds.cm(&wds)",
+    "wds.cm(&arr)",
+    "arr.cm(&wds)",
+    "ds_assigned.cm(&arr)",
+    "ds_with_targets.cm(&ds)",
 ];
 
 /// `prediction.confusion_matrix(ground_truth)` through calling form `form`
@@ -155,6 +171,22 @@ pub fn call_cm<L: CmLabel>(form: usize, pred: &[L], truth: &[L]) -> Res<Confusio
             let (tc, r2) = (two_cols(truth), recs(t.len()));
             p.confusion_matrix(&DatasetBase::new(r2.view(), tc.column(0)))
         }
+        // datasets that carry sample weights
+        21 => ds(&p).with_weights(wts(p.len())).confusion_matrix(&ds(&t).with_weights(wts(t.len()))),
+        22 => ds(&p).with_weights(wts(p.len())).confusion_matrix(&t),
+        23 => p.confusion_matrix(&ds(&t).with_weights(wts(t.len()))),
+        // datasets whose targets were replaced after construction (the label set must follow the data)
+        24 => {
+            let init = if t.len() == p.len() { t.clone() } else { p.clone() };
+            let mut d = ds(&init);
+            d.as_targets_mut().assign(&p);
+            d.confusion_matrix(&t)
+        }
+        25 => {
+            let d = ds(&t).with_targets(p.clone());
+            let e = ds(&p).with_targets(t.clone());
+            d.confusion_matrix(&e)
+        }
         _ => unreachable!("cm form"),
     }
 }
@@ -162,16 +194,40 @@ pub fn call_cm<L: CmLabel>(form: usize, pred: &[L], truth: &[L]) -> Res<Confusio
 /// a `CountedTargets` whose label counts were taken on `cached` and whose targets were then
 /// overwritten with `pred` through `as_targets_mut` (the counts are not refreshed): the receiver's
 /// `Labels::label_set` is the label set of `cached`, not of the data
-pub fn call_cm_stale(cached: &[usize], pred: &[usize], truth: &[usize]) -> Res<ConfusionMatrix<usize>> {
-    let mut ct = CountedTargets::new(Array1::from(cached.to_vec()));
-    ct.as_targets_mut().assign(&Array1::from(pred.to_vec()));
-    ct.confusion_matrix(&Array1::from(truth.to_vec()))
+pub const STALE_FORMS: usize = 4;
+pub const STALE_FORM_NAMES: [&str; STALE_FORMS] = ["counted.cm(&arr)", "counted_ds.cm(&arr)", "counted_ds.cm(&ds)", "counted_ds.cm(&stale_counted_ds)"];
+pub fn call_cm_stale(form: usize, cached: &[usize], pred: &[usize], truth: &[usize]) -> Res<ConfusionMatrix<usize>> {
+    let t = Array1::from(truth.to_vec());
+    match form {
+        0 => {
+            let mut ct = CountedTargets::new(Array1::from(cached.to_vec()));
+            ct.as_targets_mut().assign(&Array1::from(pred.to_vec()));
+            ct.confusion_matrix(&t)
+        }
+        1 | 2 | 3 => {
+            // the same cache inside a dataset, targets overwritten through the dataset
+            let mut d = DatasetBase::new(recs(cached.len()), CountedTargets::new(Array1::from(cached.to_vec())));
+            d.as_targets_mut().assign(&Array1::from(pred.to_vec()));
+            match form {
+                1 => d.confusion_matrix(&t),
+                2 => d.confusion_matrix(&DatasetBase::new(recs(t.len()), t.clone())),
+                _ => {
+                    // a stale cache on the ground-truth side too (counted on the receiver's stale
+                    // labels): every impl reads the truth's labels from its data, so it must not matter
+                    let mut e = DatasetBase::new(recs(cached.len()), CountedTargets::new(Array1::from(cached.to_vec())));
+                    e.as_targets_mut().assign(&t);
+                    d.confusion_matrix(&e)
+                }
+            }
+        }
+        _ => unreachable!("stale form"),
+    }
 }
 
 // ------------------------------------------------------------------ ROC / log-loss
 
-pub const BIN_FORMS: usize = 7;
-pub const BIN_FORM_NAMES: [&str; BIN_FORMS] = ["slice", "array", "view", "dataset", "dataset_views", "strided_view", "dataset_strided"];
+pub const BIN_FORMS: usize = 10;
+pub const BIN_FORM_NAMES: [&str; BIN_FORMS] = ["slice", "array", "view", "dataset", "dataset_views", "strided_view", "dataset_strided", "weighted_datasets", "reversed_view", "dataset_reversed"];
 
 fn prs(s: &[f32]) -> Vec<Pr> {
     s.iter().map(|x| Pr::new_unchecked(*x)).collect()
@@ -206,6 +262,23 @@ pub fn call_roc(form: usize, s: &[f32], y: &[bool]) -> Res<linfa::metrics::Recei
             let (pi, yi) = (interleaved(&pr), interleaved(y));
             let a = DatasetBase::new(r1.view(), pi.slice(s![..;2]));
             let b = DatasetBase::new(r2.view(), yi.slice(s![..;2]));
+            a.roc(&b)
+        }
+        7 => {
+            let a = DatasetBase::new(recs(s.len()), Array1::from(pr)).with_weights(wts(s.len()));
+            let b = DatasetBase::new(recs(y.len()), Array1::from(y.to_vec())).with_weights(wts(y.len()));
+            a.roc(&b)
+        }
+        8 => {
+            // negative stride
+            let pv = reversed(&pr);
+            pv.slice(s![..;-1]).roc(y)
+        }
+        9 => {
+            let (r1, r2) = (recs(s.len()), recs(y.len()));
+            let (pv, yv) = (reversed(&pr), reversed(y));
+            let a = DatasetBase::new(r1.view(), pv.slice(s![..;-1]));
+            let b = DatasetBase::new(r2.view(), yv.slice(s![..;-1]));
             a.roc(&b)
         }
         _ => unreachable!("roc form"),
@@ -243,6 +316,23 @@ pub fn call_log_loss(form: usize, s: &[f32], y: &[bool]) -> Res<f32> {
             let b = DatasetBase::new(r2.view(), yi.slice(s![..;2]));
             a.log_loss(&b)
         }
+        7 => {
+            let a = DatasetBase::new(recs(s.len()), Array1::from(pr)).with_weights(wts(s.len()));
+            let b = DatasetBase::new(recs(y.len()), Array1::from(y.to_vec())).with_weights(wts(y.len()));
+            a.log_loss(&b)
+        }
+        8 => {
+            // negative stride
+            let pv = reversed(&pr);
+            pv.slice(s![..;-1]).log_loss(y)
+        }
+        9 => {
+            let (r1, r2) = (recs(s.len()), recs(y.len()));
+            let (pv, yv) = (reversed(&pr), reversed(y));
+            let a = DatasetBase::new(r1.view(), pv.slice(s![..;-1]));
+            let b = DatasetBase::new(r2.view(), yv.slice(s![..;-1]));
+            a.log_loss(&b)
+        }
         _ => unreachable!("log_loss form"),
     }
 }
@@ -266,10 +356,10 @@ macro_rules! eight {
 }
 pub(crate) use eight;
 
-pub const REG1_FORMS: usize = 10;
-pub const REG1_FORM_NAMES: [&str; REG1_FORMS] = ["arr.m(&arr)", "arr.m(&ds)", "ds.m(&arr)", "ds.m(&ds)", "view.m(&view)", "col2.m(&col2)", "dsview.m(&view)", "arr.m(&&arr)", "strided.m(&strided)", "colds.m(&reversed)"];
-pub const REGM_FORMS: usize = 8;
-pub const REGM_FORM_NAMES: [&str; REGM_FORMS] = ["arr2.m(&arr2)", "arr2.m(&ds)", "ds.m(&arr2)", "ds.m(&ds)", "view2.m(&view2)", "dsview.m(&dsview)", "forder2.m(&forder2)", "ds_strided2.m(&strided2)"];
+pub const REG1_FORMS: usize = 11;
+pub const REG1_FORM_NAMES: [&str; REG1_FORMS] = ["arr.m(&arr)", "arr.m(&ds)", "ds.m(&arr)", "ds.m(&ds)", "view.m(&view)", "col2.m(&col2)", "dsview.m(&view)", "arr.m(&&arr)", "strided.m(&strided)", "colds.m(&reversed)", "wds.m(&wds)"];
+pub const REGM_FORMS: usize = 10;
+pub const REGM_FORM_NAMES: [&str; REGM_FORMS] = ["arr2.m(&arr2)", "arr2.m(&ds)", "ds.m(&arr2)", "ds.m(&ds)", "view2.m(&view2)", "dsview.m(&dsview)", "forder2.m(&forder2)", "ds_strided2.m(&strided2)", "wds.m(&wds)", "reversed2.m(&ds_reversed2)"];
 
 /// single target: `[metric] -> Option<F>`
 pub fn call_reg1<F: linfa::Float>(form: usize, a: &Array1<F>, b: &Array1<F>, g: &dyn Fn(&dyn Fn() -> Res<F>) -> Option<F>) -> Vec<Option<F>> {
@@ -327,6 +417,11 @@ pub fn call_reg1<F: linfa::Float>(form: usize, a: &Array1<F>, b: &Array1<F>, g: 
             let vb = br.slice(s![..;-1]);
             eight!(g, da, &vb)
         }
+        10 => {
+            let da = DatasetBase::new(rec(), a.clone()).with_weights(wts(n));
+            let db = DatasetBase::new(rec(), b.clone()).with_weights(wts(n));
+            eight!(g, da, &db)
+        }
         _ => unreachable!("reg1 form"),
     }
 }
@@ -370,14 +465,26 @@ pub fn call_regm<F: linfa::Float>(form: usize, a: &Array2<F>, b: &Array2<F>, g: 
             let vb = pb.slice(s![..;2, ..;2]);
             eight!(g, da, &vb)
         }
+        8 => {
+            let da = DatasetBase::new(rec(), a.clone()).with_weights(wts(n));
+            let db = DatasetBase::new(rec(), b.clone()).with_weights(wts(n));
+            eight!(g, da, &db)
+        }
+        9 => {
+            // negative strides on both axes
+            let (ra, rb, r) = (rev2(a), rev2(b), rec());
+            let va = ra.slice(s![..;-1, ..;-1]);
+            let db = DatasetBase::new(r.view(), rb.slice(s![..;-1, ..;-1]));
+            eight!(g, va, &db)
+        }
         _ => unreachable!("regm form"),
     }
 }
 
 // ------------------------------------------------------------------ silhouette
 
-pub const SIL_FORMS: usize = 7;
-pub const SIL_FORM_NAMES: [&str; SIL_FORMS] = ["ds<usize>", "ds<bool|usize>", "ds<String>", "counted_ds", "dsview", "forder_records", "strided_views"];
+pub const SIL_FORMS: usize = 9;
+pub const SIL_FORM_NAMES: [&str; SIL_FORMS] = ["ds<usize>", "ds<bool|usize>", "ds<String>", "counted_ds", "dsview", "forder_records", "strided_views", "weighted_ds", "reversed_views"];
 
 /// `silhouette_score` through label type / container `form`; labels are given as small naturals
 pub fn call_sil<F: linfa::Float>(form: usize, rec: Array2<F>, l: &[usize]) -> Res<F> {
@@ -409,14 +516,35 @@ pub fn call_sil<F: linfa::Float>(form: usize, rec: Array2<F>, l: &[usize]) -> Re
             let (pr, ti) = (padded(&rec), interleaved(l));
             DatasetBase::new(pr.slice(s![..;2, ..;2]), ti.slice(s![..;2])).silhouette_score()
         }
+        7 => Dataset::new(rec, Array1::from(l.to_vec())).with_weights(wts(l.len())).silhouette_score(),
+        8 => {
+            let (rr, tr) = (rev2(&rec), reversed(l));
+            DatasetBase::new(rr.slice(s![..;-1, ..;-1]), tr.slice(s![..;-1])).silhouette_score()
+        }
         _ => unreachable!("sil form"),
     }
 }
 
+/// `silhouette_score` of a dataset whose `CountedTargets` were counted on `cached` and whose targets
+/// were then overwritten with `l` (the counts are not refreshed): stale cluster sizes, labels of the
+/// data that the cache does not know (`get_mut(..).unwrap()` panics), cached labels without samples
+pub fn call_sil_stale(rec: Array2<f64>, cached: &[usize], l: &[usize]) -> Res<f64> {
+    let mut d = DatasetBase::new(rec, CountedTargets::new(Array1::from(cached.to_vec())));
+    d.as_targets_mut().assign(&Array1::from(l.to_vec()));
+    d.silhouette_score()
+}
+
 // ------------------------------------------------------------------ Pearson
 
-pub const PEARSON_FORMS: usize = 5;
-pub const PEARSON_FORM_NAMES: [&str; PEARSON_FORMS] = ["owned", "forder", "strided_view", "dataset_with_targets", "with_p_value"];
+/// soft observation (distribution key only): are the p-values of 3 resamplings frequencies k/3?
+pub fn pvalues_are_frequencies(rec: Array2<f64>) -> bool {
+    let p = rec.ncols();
+    let c = DatasetBase::from(rec).pearson_correlation_with_p_value(3);
+    c.get_p_values().map_or(p < 2, |pv| pv.iter().all(|v| { let k = *v * 3.0; (0.0..=3.0).contains(&k) && (k - k.round()).abs() < 1e-4 }))
+}
+
+pub const PEARSON_FORMS: usize = 7;
+pub const PEARSON_FORM_NAMES: [&str; PEARSON_FORMS] = ["owned", "forder", "strided_view", "dataset_with_targets", "with_p_value", "weighted_ds", "reversed_view"];
 
 /// `pearson_correlation` of the records through memory layout / container `form`
 pub fn call_pearson<F: linfa::Float>(form: usize, rec: Array2<F>) -> Vec<F> {
@@ -432,13 +560,19 @@ pub fn call_pearson<F: linfa::Float>(form: usize, rec: Array2<F>) -> Vec<F> {
             Dataset::new(rec, Array1::from((0..n).collect::<Vec<usize>>())).pearson_correlation().get_coeffs().to_vec()
         }
         4 => {
-            // the coefficients of the p-value entry point (the p-values themselves are a random
-            // resampling and not in the statement; they must be frequencies k/3 in [0, 1])
-            let p = rec.ncols();
+            // the coefficients of the p-value entry point; the p-values themselves are a random
+            // resampling and not in the statement: nothing is required of them (whether they are
+            // frequencies k/3 is only counted by the caller through `pvalues_are_frequencies`)
             let c = DatasetBase::from(rec).pearson_correlation_with_p_value(3);
-            let ok = c.get_p_values().map_or(p < 2, |pv| pv.iter().all(|v| { let k = v.to_f64().unwrap() * 3.0; (0.0..=3.0).contains(&k) && (k - k.round()).abs() < 1e-4 }));
-            assert!(ok, "p-values are not frequencies of 3 resamplings: {:?}", c.get_p_values());
             c.get_coeffs().to_vec()
+        }
+        5 => {
+            let n = rec.nrows();
+            DatasetBase::from(rec).with_weights(wts(n)).pearson_correlation().get_coeffs().to_vec()
+        }
+        6 => {
+            let rr = rev2(&rec);
+            DatasetBase::from(rr.slice(s![..;-1, ..;-1])).pearson_correlation().get_coeffs().to_vec()
         }
         _ => unreachable!("pearson form"),
     }
